@@ -264,3 +264,35 @@ func TestConfirmNegativeDiscard(t *testing.T) {
 		t.Fatalf("xpacket callback got %q, want %q", got, packet)
 	}
 }
+
+// C11 CLOSE (panic path): a version-2 infe entry of item type mime that is 21 bytes long makes readInfe slice
+// buf[21:20]; ReadMetadata recovered the panic into an error but left the reader inside the meta box, so the next
+// call parsed the rest of the box as a box header and the xpacket box behind it was not delivered.
+func TestConfirmTopLevelBoxClosedAfterRecoveredPanic(t *testing.T) {
+	xpktUUID := []byte{0xbe, 0x7a, 0xcf, 0xcb, 0x97, 0xa9, 0x42, 0xe8, 0x9c, 0x71, 0x99, 0x94, 0x91, 0xe3, 0xaf, 0xac}
+	packet := []byte("<x:xmpmeta>0123456789</x:xmpmeta>")
+	infe := box("infe", []byte{2, 0, 0, 0}, be16(1), be16(0), []byte("mime"), []byte{0}) // 21 bytes
+	file := bytes.Join([][]byte{
+		ftyp("heic"),
+		box("meta", be32(0), box("iinf", be32(0), be16(1), infe), box("free", make([]byte, 24))),
+		box("uuid", xpktUUID, packet),
+		make([]byte, 64),
+	}, nil)
+	var got []byte
+	r := isobmff.NewReader(bytes.NewReader(file))
+	defer r.Close()
+	r.XMPReader = func(rd io.Reader) error { var err error; got, err = io.ReadAll(rd); return err }
+	r.ExifReader = func(rd io.Reader, h meta.ExifHeader) error { return nil }
+	if err := r.ReadFTYP(); err != nil {
+		t.Fatal(err)
+	}
+	if err := r.ReadMetadata(); err == nil {
+		t.Log("the malformed infe entry was expected to fail (not essential)")
+	}
+	if err := r.ReadMetadata(); err != nil {
+		t.Fatalf("second top-level box: %v (the reader was left inside the first one)", err)
+	}
+	if !bytes.Equal(got, packet) {
+		t.Fatalf("xpacket callback got %q, want %q", got, packet)
+	}
+}
